@@ -211,6 +211,7 @@ func runModelProp(prop, tier, replay string) {
 		if prop == "C11" && only < 0 {
 			metaReuseScripts(ctx, r, s, stack, base.Fork("meta-scripts/"+stack), cfg)
 		}
+		httpHeaderCombinationsIf(ctx, r, prop, s, stack, base, only) // C11 only: HTTP header-combination part (c11http.go)
 		if (prop == "C02" || prop == "C13") && (only < 0 || onlyLadder >= 0) {
 			promotionLadders(ctx, r, prop, s, stack, base.Fork("ladders/"+stack), cfg, onlyLadder)
 		}
